@@ -236,6 +236,10 @@ func (i *Interpreter) ProcessReturnStatement(stmt *ast.ReturnStatement) State {
 	if stmt.ReturnExpression == nil {
 		return BARE_RETURN
 	}
+	// The state is the identifier itself: String() includes the comments around it
+	if ident, ok := stmt.ReturnExpression.(*ast.Ident); ok {
+		return State(ident.Value)
+	}
 	return State(stmt.ReturnExpression.String())
 }
 
